@@ -912,7 +912,8 @@ impl Property for C07 {
         "mostly conflict-free worlds (chains, diamonds, cycles, unions) x favored x rank permutation x hints x schedule; precondition decided by the reference: FirstChoice closure is a valid selection and every reachable requirement is met only by its own first choice (else skipped); oracle: solve = Ok(S) with set(S) = FirstChoice; non-trivial = precondition holds and >= 3 solvables installed; distinct = (world, trace, plan) hash"
     }
     fn gen(&self, seed: u64, tier: Tier) -> Vec<Scenario> {
-        let base = GenParams::conflict_free();
+        let mut base = GenParams::conflict_free();
+        base.p_big_package = 1;
         let params = swarm(seed, base, tier);
         if seed % 4 != 0 {
             return vec![std_scenario(seed, &params, None)];
